@@ -30,7 +30,7 @@ var ruleGroups = map[string]func(*Ctx){
 	"X1": rulesTransport, "X2": rulesTransport, "X3": rulesTransport, "W1": rulesTransport,
 	"G9": rulesExtra3, "P5": rulesExtra3, "M4": rulesExtra3, "M5": rulesExtra3, "X4": rulesExtra3, "B6": rulesExtra3, "G8": rulesExtra3,
 	"X7": rulesExtra4, "L5": rulesExtra4, "R3": rulesExtra4, "R4": rulesExtra4, "J2": rulesExtra4, "R5": rulesExtra4, "I10": rulesExtra4, "L4": rulesExtra4, "M6": rulesExtra4, "I8": rulesExtra4, "I9": rulesExtra4, "T6": rulesExtra4, "L3": rulesExtra4, "E6": rulesExtra4, "X5": rulesExtra4, "X6": rulesExtra4,
-	"P6": rulesExtra5, "P7": rulesExtra5, "X8": rulesExtra5, "G10": rulesExtra5, "G12": rulesExtra5, "J3": rulesExtra5, "Q6": rulesExtra5, "J4": rulesExtra5, "I11": rulesExtra5, "G11": rulesExtra5, "R6": rulesExtra5,
+	"P6": rulesExtra5, "P7": rulesExtra5, "X8": rulesExtra5, "G10": rulesExtra5, "M7": rulesExtra5, "G13": rulesExtra5, "G12": rulesExtra5, "J3": rulesExtra5, "Q6": rulesExtra5, "J4": rulesExtra5, "I11": rulesExtra5, "G11": rulesExtra5, "R6": rulesExtra5,
 	"S1": rulesExtra2, "G7": rulesExtra2, "Q5": rulesExtra2, "T5": rulesExtra2, "I7": rulesExtra2,
 	"I6": rulesExtra, "T2": rulesExtra, "P4": rulesExtra, "B4": rulesExtra, "B5": rulesExtra, "T3": rulesExtra, "T4": rulesExtra,
 	"M1": rulesAddr, "M2": rulesAddr, "M3": rulesAddr, "D2": rulesAddr,
@@ -98,8 +98,8 @@ var propSpecs = map[string]*propSpec{
 	"C04": {ID: "C04", Rules: rr("T1", "A4", "T2", "T3", "T4", "T5"), Controls: []string{"T1"},
 		Explanation: "Interprocedural field-based taint from every read of a decoded MessageExchangeHeads.Heads to log constructors, entry maps and Join: no entry object received from the network reaches a log except through its content address (T1); logs are only built with the store's access controller and id and only mutated through Append/Join (A4). Join direction and oplog provenance (T2); fetched entries with a foreign log id are refused (T3); only heads accepted by the access controller are handed to the replicator (T4); the claimed address is compared as a whole with the recomputed one (T5).",
 		NotDecided:  "the dependency's signature check and log-id filter inside Join; hash collision resistance."},
-	"C05": {ID: "C05", Rules: cat(rr("P1", "P3", "P4", "P5", "L4", "P6", "P7", "X8"), []ruleRef{except("P2", "snapshot", "queue")}), Controls: []string{"P1", "P6", "P7", "X8"},
-		Explanation: "Ordering of persistence effects on every path: Append → cache Put (error tested, failing branch leaves) → successful return; Join → Put of merged heads (error tested) → EventReplicated (P1); the keys written by those paths and the manifest marker are read back under the same names by the load path, the exchange and the local-presence test, and both head sets read by the load path feed the fetch (P2). No cached head key is deleted outside Drop (P4). The head persisted after a local write is produced and written inside one critical section, so the cache never ends up naming an older entry than the last acknowledged one (P3). A history fetched at load that is refused as a whole is merged entry by entry, so one refused ancestor does not cost the entries reported as replicated before the restart (L4). The load path only reads the head records: the log it rebuilds is as complete as the fetch was, which nothing reports (DF7), so its heads are never written back (P6). What the merge path records is Heads() of the store's log read after the merge, not the heads of the batch (P7). No block is ever removed from the block store (X8).",
+	"C05": {ID: "C05", Rules: cat(rr("P1", "P3", "P4", "P5", "L4", "P6", "P7", "X8"), []ruleRef{except("P2", "snapshot", "queue"), only("Q4", "basestore")}), Controls: []string{"P1", "P6", "P7", "X8"},
+		Explanation: "Ordering of persistence effects on every path: Append → cache Put (error tested, failing branch leaves) → successful return; Join → Put of merged heads (error tested) → EventReplicated (P1); the keys written by those paths and the manifest marker are read back under the same names by the load path, the exchange and the local-presence test, and both head sets read by the load path feed the fetch (P2). No cached head key is deleted outside Drop (P4). The head persisted after a local write is produced and written inside one critical section, so the cache never ends up naming an older entry than the last acknowledged one (P3). A history fetched at load that is refused as a whole is merged entry by entry, so one refused ancestor does not cost the entries reported as replicated before the restart (L4). The load path only reads the head records: the log it rebuilds is as complete as the fetch was, which nothing reports (DF7), so its heads are never written back (P6). What the merge path records is Heads() of the store's log read after the merge, not the heads of the batch (P7). No block is ever removed from the block store (X8). The fetches that rebuild the log at load carry no time-out: under DF7 its expiry is a truncated log and a nil error (Q4).",
 		NotDecided:  "durability of leveldb/IPFS writes; the state recovered from each crash prefix (needs CRDT semantics)."},
 	"C06": {ID: "C06", Rules: []ruleRef{only("I1", "kvstore"), only("I2", "kvstore"), only("I3", "kvstore"), {Rule: "I4"}, only("I6", "kvstore"), only("I8", "kvstore"), only("I9", "kvstore", "stores/operation"), only("I10", "kvstore")}, Controls: []string{"I2"},
 		Explanation: "Key-value index: view computed from Values() only (I1); descending scan with a first-seen guard whose tested, marked and written key are the same expression, PUT stores and DEL deletes (I2, I3); every log change refreshes the view (I4). View writes keyed verbatim (I8); operations are decoded into fresh values (I9).",
@@ -113,11 +113,11 @@ var propSpecs = map[string]*propSpec{
 	"C09": {ID: "C09", Rules: rr("B1", "B2", "B4", "B5", "B6"), Controls: []string{"B1"},
 		Explanation: "Every subscription to store-scoped event types on a bus that may be the instance-wide one either filters by the event's database address before any effect, or is made on a bus private to the store (B1); both receive paths route a heads message by the address it names before Sync (B2). Handler goroutines capture only per-iteration state (B4); each store gets the cache loaded for its own address on every path (B5); nothing written back into the caller's options chains per-store hooks (B6).",
 		NotDecided:  "interference through the shared IPFS node or the pubsub router."},
-	"C10": {ID: "C10", Rules: []ruleRef{{Rule: "L1"}, only("Q1", "rejected-join"), {Rule: "I4"}, {Rule: "T1"}, {Rule: "T2"}, {Rule: "T4"}, {Rule: "T6"}, {Rule: "L4"}, {Rule: "Q6"}}, Controls: []string{"L1", "T1", "T6"},
-		Explanation: "A failing Join stays inside the loop over fetched logs (L1); the task table's terminal state either does not block re-queuing, or is collected at load-end, or every fetch asks for exactly one entry so that a rejected log never holds a valid one (Q1); every Join is called on the store's own log, so each fetched log is verified and rejected on its own (T2); what is fetched under a hash is the content of that hash, never an announced object (T1); the view is refreshed after partial batches (I4). Memo discipline in Sync: marks only after verification, releasable, released on every path (T6); a multi-entry history refused at load is merged entry by entry (L4).",
+	"C10": {ID: "C10", Rules: []ruleRef{{Rule: "L1"}, only("Q1", "rejected-join"), {Rule: "I4"}, {Rule: "T1"}, {Rule: "T2"}, {Rule: "T4"}, {Rule: "T6"}, {Rule: "L4"}, {Rule: "Q6"}, {Rule: "Q5"}, only("G7", "replicator")}, Controls: []string{"L1", "T1", "T6"},
+		Explanation: "A failing Join stays inside the loop over fetched logs (L1); the task table's terminal state either does not block re-queuing, or is collected at load-end, or every fetch asks for exactly one entry so that a rejected log never holds a valid one (Q1); every Join is called on the store's own log, so each fetched log is verified and rejected on its own (T2); what is fetched under a hash is the content of that hash, never an announced object (T1); the view is refreshed after partial batches (I4). Memo discipline in Sync: marks only after verification, releasable, released on every path (T6); a multi-entry history refused at load is merged entry by entry (L4). A refused fetch gives its slot and its count back (G7, Q5) and still runs the idle test when it completes last (Q6).",
 		NotDecided:  "which entries the dependency rejects."},
-	"C11": {ID: "C11", Rules: []ruleRef{only("Q1", "failed-fetch", "tasks[]"), {Rule: "Q2"}, {Rule: "G2"}, {Rule: "Q3"}, {Rule: "Q5"}, {Rule: "Q6"}, only("G7", "replicator"), {Rule: "S1"}},
-		Explanation: "Task states are not absorbing while blocking (Q1); a worker whose slot wait fails removes a queued item and its task entry (Q2); goroutines draining a fetch-progress channel have no exit on ctx.Done() while the fetcher can still send (G2, with DF4 derived from the dependency). An empty fetch is a failed fetch (Q3, DF7); the idle counter is balanced on every worker path (Q5); fetch slots are released on every path (G7); no head is skipped on the strength of state recorded when an earlier request merely started (S1).",
+	"C11": {ID: "C11", Rules: []ruleRef{only("Q1", "failed-fetch", "tasks[]"), {Rule: "Q2"}, {Rule: "G2"}, {Rule: "Q3"}, {Rule: "Q5"}, {Rule: "Q6"}, only("G7", "replicator"), {Rule: "S1"}, {Rule: "T6"}},
+		Explanation: "Task states are not absorbing while blocking (Q1); a worker whose slot wait fails removes a queued item and its task entry (Q2); goroutines draining a fetch-progress channel have no exit on ctx.Done() while the fetcher can still send (G2, with DF4 derived from the dependency). An empty fetch is a failed fetch (Q3, DF7); the idle counter is balanced on every worker path (Q5); fetch slots are released on every path (G7); no head is skipped on the strength of state recorded when an earlier request merely started (S1). A head never lives only in a memo of Sync after its fetch failed (T6); every task retirement is followed by the idle test (Q6).",
 		NotDecided:  "behaviour of IPFS fetches under cancellation."},
 	"C12": {ID: "C12", Rules: []ruleRef{{Rule: "N2"}, {Rule: "N4"}, only("E3", "pubsub", "PayloadEmitter"), {Rule: "T1"}, {Rule: "T4"}, only("N1", "directchannel"), except("G7", "replicator"), {Rule: "T6"}, {Rule: "G12"}}, Controls: []string{"N4", "N2", "T1", "T6", "G12"},
 		Explanation: "Allocation sizes decoded from a stream are bounded on both sides before use (N2, N1 on the frame-length conversion); every pointer decoded from a message or fetched entry (heads elements, GetIdentity() results, announced clocks) is nil-tested as a pointer before dereference, including through interface boxing (N4); the payload emitter's value type matches (E3); received entries cannot alter a log except by content address (T1). A received entry is re-encoded only after its clock and identity signatures were found present (N4d, DF8); only accepted heads reach the replicator (T4); frame slots are released on every path (G7). Clocks and identities of received heads are guarded wherever the heads flow, including helpers and access controllers (N4 e/f over T1's taint set); nothing is recorded about a head under its claimed hash before that hash was verified (T6).",
@@ -125,11 +125,11 @@ var propSpecs = map[string]*propSpec{
 	"C13": {ID: "C13", Rules: []ruleRef{only("N1", "basestore"), {Rule: "N3"}, only("X3", "basestore"), only("P2", "snapshot", "queue"), {Rule: "X5"}, {Rule: "X6"}, {Rule: "X8"}}, Controls: []string{"N3", "X6", "X5", "X8"},
 		Explanation: "Both 16-bit length prefixes of the snapshot writer are guarded by a range test (N1); make-then-fill loops allocate with the length of the collection they range over (N3: GetQueue); writer and loader use the same prefix width and byte order (X3); the snapshot and queue keys are written and read under the same names (P2). The header's Len()/Heads() are read before the entries that are serialised (X5); frame buffers are filled by a full read — io.ReadFull or the UnixFS file's own Read, DF10 (X6). Nothing removes a block: a snapshot of an unchanged log is the very same file as the previous one, so freeing the replaced snapshot frees the new one (X8).",
 		NotDecided:  "round-trip equality of the decoded log."},
-	"C14": {ID: "C14", Rules: []ruleRef{{Rule: "M1"}, {Rule: "M2"}, {Rule: "M3"}, {Rule: "M4"}, {Rule: "M5"}, {Rule: "M6"}, only("A4", "baseorbitdb"), only("P4", "_manifest", "no-head-key-deletes")}, Controls: []string{"M6"},
-		Explanation: "No clock, randomness, process identity or map-iteration order flows into what is written on the address-determination cone (M1); the address prefix constant agrees between printing and parsing (M2); the local-presence test dominates the marker write in Create and store creation in Open, and its outcome can refuse (M3); controller and store type come from the manifest (A4 iii). The ipfs controller's Load assigns the decoded list on every successful path and the decoded manifest takes nothing from the opener (M4); address values are only built by the parser (M5). An address built by joining the manifest hash with the caller's name is only returned where its parsed root equals the manifest hash (M6); the manifest's access-controller address is put in place on every path to the store creation (A4).",
+	"C14": {ID: "C14", Rules: []ruleRef{{Rule: "M1"}, {Rule: "M2"}, {Rule: "M3"}, {Rule: "M4"}, {Rule: "M5"}, {Rule: "M6"}, {Rule: "M7"}, only("A4", "baseorbitdb"), only("P4", "_manifest", "no-head-key-deletes")}, Controls: []string{"M6"},
+		Explanation: "No clock, randomness, process identity or map-iteration order flows into what is written on the address-determination cone (M1); the address prefix constant agrees between printing and parsing (M2); the local-presence test dominates the marker write in Create and store creation in Open, and its outcome can refuse (M3); controller and store type come from the manifest (A4 iii). The ipfs controller's Load assigns the decoded list on every successful path and the decoded manifest takes nothing from the opener (M4); address values are only built by the parser (M5). An address built by joining the manifest hash with the caller's name is only returned where its parsed root equals the manifest hash (M6); the manifest's access-controller address is put in place on every path to the store creation (A4). The marker is looked for in the directory it is written to (M3, third clause) and is only deleted by Drop (P4); the write list a controller saves is not ordered by map iteration (M7).",
 		NotDecided:  "injectivity and equality of content addresses; string round trip."},
 	"C15": {ID: "C15", Rules: rr("J1", "J2", "J3"), Controls: []string{"J1", "J2"},
-		Explanation: "At every merge site the size handed to Join is the constant -1 or is, on every path, positive and bounded by the receiving log's length (J1); DF1 (Join slices values[len-size:] unguarded) is re-derived from the dependency.",
+		Explanation: "At every merge site the size handed to Join is the constant -1 or is, on every path, positive and bounded by the receiving log's length (J1); DF1 (Join slices values[len-size:] unguarded) is re-derived from the dependency. The limit handed to the head fetches is never 0 (J3) and is not reduced on its way, including through a helper parameter (J2).",
 		NotDecided:  "which entries survive trimming (that they are the most recent)."},
 	"C16": {ID: "C16", Rules: []ruleRef{{Rule: "E1"}, {Rule: "E2"}, except("E3", "accesscontroller"), {Rule: "E4"}, {Rule: "E5"}, {Rule: "E6"}}, Controls: []string{"E1", "E6"},
 		Explanation: "View refresh and head persistence dominate EventWrite/EventReplicated (E1); every acknowledged write emits exactly one EventWrite carrying the appended entry (E2); each emitter is only given values of the type it was created for (E3); the legacy emitter is on the store's bus on every initialiser path (E4); sends on a legacy subscriber's delivery channel are in one goroutine or all under the queue lock (E5). A try-send used as a wake-up goes to a channel with capacity (E6).",
@@ -137,8 +137,8 @@ var propSpecs = map[string]*propSpec{
 	"C17": {ID: "C17", Rules: []ruleRef{{Rule: "P3"}, only("I4", "Append"), {Rule: "I10"}}, Controls: []string{"P3"},
 		Explanation: "The value persisted as local head is produced (Append) and written (Put) inside one exclusive critical section that is not released in between (P3). Every acknowledged write has refreshed the view (I4 on the write path).",
 		NotDecided:  "distinctness of appended entries (the dependency's append lock)."},
-	"C18": {ID: "C18", Rules: cat(rr("G1", "G3", "G4", "G5", "G6", "G8", "G9", "G10", "G11", "B3", "B6", "L5"), []ruleRef{only("G7", "replicator")}), Controls: []string{"G11"},
-		Explanation: "Every goroutine's loops have an owner-tied exit and helper goroutines never block on a channel whose receiver may have left (G1); Close reaches cancel, Replicator.Stop, cache close, every emitter it created and the legacy subscribers, every bus subscription is closed, instance Close reaches its parts (G3); no call made under a lock re-acquires the same lock class (G4); Close starts with the closed test, Drop closes first and removes only the path derived from the database's own address (G5); condition variables are signalled with their lock held (G6); shared table entries are not bound to one caller's context (B3). Past its guard Close passes cancel, Replicator.Stop, cache Close and the legacy teardown on every path (G8); close hooks are not chained through the caller's options (B6). What Drop destroys is the directory and address the store's cache was loaded with (G10). A worker whose wait for a fetch slot failed — the request was cancelled, the store closed — releases no slot: a weighted semaphore panics when more is released than was acquired (G7, failing branch). A goroutine that belongs to one call of an operation and writes the replication status is waited for before the operation returns, so that nothing is still writing it after a Close that follows (G11).",
+	"C18": {ID: "C18", Rules: cat(rr("G1", "G3", "G4", "G5", "G6", "G8", "G9", "G10", "G11", "G13", "B3", "B6", "L5"), []ruleRef{only("G7", "replicator")}), Controls: []string{"G11"},
+		Explanation: "Every goroutine's loops have an owner-tied exit and helper goroutines never block on a channel whose receiver may have left (G1); Close reaches cancel, Replicator.Stop, cache close, every emitter it created and the legacy subscribers, every bus subscription is closed, instance Close reaches its parts (G3); no call made under a lock re-acquires the same lock class (G4); Close starts with the closed test, Drop closes first and removes only the path derived from the database's own address (G5); condition variables are signalled with their lock held (G6); shared table entries are not bound to one caller's context (B3). Past its guard Close passes cancel, Replicator.Stop, cache Close and the legacy teardown on every path (G8); close hooks are not chained through the caller's options (B6). What Drop destroys is the directory and address the store's cache was loaded with (G10). A worker whose wait for a fetch slot failed — the request was cancelled, the store closed — releases no slot: a weighted semaphore panics when more is released than was acquired (G7, failing branch). A goroutine that belongs to one call of an operation and writes the replication status is waited for before the operation returns, so that nothing is still writing it after a Close that follows (G11). Close takes no lock that an operation holds across a fetch of log history (G13).",
 		NotDecided:  "prompt return of every post-close operation (depends on leveldb and the bus)."},
 	"C19": {ID: "C19", Rules: rr("R1", "R2", "R3", "R4", "R5", "R6"), Controls: []string{"R4"},
 		Explanation: "The status is written only by the recalculation helpers and reset only by Close (R1); the helpers are executed abstractly on every weak ordering of (arg, logLen, oldMax, progress, progress+1): neither value decreases and progress <= maximum is re-established (R2). Progress also ends at or above the log length on every order type.",
